@@ -344,6 +344,43 @@ def extract(src_root):
                     sites_here.append(site)
             # attribute every store on a variable to the site that assigned the variable last before it
             par = _parents(fn)
+            # NAMES BOUND ONCE: a variable that holds an introspectable is bound exactly once on every path, and when one
+            # name serves several sites (exclusive branches) no closure may read it -- a closure sees the LAST binding
+            for var in sorted({x['var'] for x in sites_here}):
+                mine = [x for x in sites_here if x['var'] == var]
+                binds = [n2 for n2 in ast.walk(fn) if isinstance(n2, ast.Name) and n2.id == var
+                         and isinstance(n2.ctx, (ast.Store, ast.Del)) and id(n2) not in inner_nodes]
+                # `var = None` before the site is an initialisation, not a second object
+                binds = [n2 for n2 in binds if not (
+                    isinstance(par.get(id(n2)), ast.Assign) and isinstance(par[id(n2)].value, ast.Constant)
+                    and par[id(n2)].value.value is None and par[id(n2)].lineno < min(x['_node'].lineno for x in mine))]
+                if len(binds) != len(mine):
+                    problems.append('%s:%s: the introspectable variable %s is also bound by something else than its %d '
+                                    'introspectable(..) site(s)' % (rel, fn.name, var, len(mine)))
+                if len(mine) > 1:
+                    def branch_path(node):
+                        out, cur = [], node
+                        while id(cur) in par and cur is not fn:
+                            up = par[id(cur)]
+                            if isinstance(up, ast.If):
+                                out.append((id(up), 'T' if any(cur is st for st in up.body) else 'F'))
+                            cur = up
+                        return dict(out)
+                    paths = [branch_path(x['_node']) for x in mine]
+                    for i in range(len(mine)):
+                        for j in range(i + 1, len(mine)):
+                            if not any(k in paths[j] and paths[j][k] != v for k, v in paths[i].items()):
+                                problems.append('%s:%s: the name %s is bound to two introspectables on one path (the second '
+                                                'binding shadows the first for every later store)' % (rel, fn.name, var))
+                    reads = [n2 for n2 in ast.walk(fn) if isinstance(n2, ast.Name) and n2.id == var and id(n2) in inner_nodes]
+                    if reads:
+                        problems.append('%s:%s: the name %s is bound to several introspectables and read inside a closure '
+                                        '(late binding: the closure sees the last one bound)' % (rel, fn.name, var))
+            # NO MUTABLE DEFAULTS in a function that builds an entry (state kept across calls)
+            if sites_here:
+                for dv in list(fn.args.defaults) + [d for d in fn.args.kw_defaults if d is not None]:
+                    if isinstance(dv, (ast.List, ast.Dict, ast.Set, ast.ListComp, ast.DictComp, ast.SetComp, ast.Call)):
+                        problems.append('%s:%s: mutable default argument %s' % (rel, fn.name, ast.unparse(dv)))
 
             def owner_sites(m, var):
                 cands = [x for x in sites_here if x['var'] == var]
